@@ -79,6 +79,8 @@ def extract(root='/repo', std='c++14', scratch=None, extra_tus=()):
         prog.inlined = normalise.inline_local_helpers(prog)
         prog.range_loops = normalise.canonical_range_for(prog)
         prog.aliases = normalise.resolve_reference_aliases(prog)
+        pn = os.path.join(os.path.dirname(os.path.abspath(__file__)), 'param_names.json')
+        prog.renamed_params = normalise.canonical_param_names(prog, json.load(open(pn))) if os.path.exists(pn) else 0
         return prog
     finally:
         if own:
